@@ -5,7 +5,7 @@ from ..common import *
 from .. import common, build, lean, check, script, wiregen
 
 MODULE = "Dbus.Props.C01"
-THEOREMS = ["decode_sound'", "decode_encode", "decodeFields_iff", "validate_prefix_stable", "validate_prefix_reflects"]
+THEOREMS = ["decode_accepts_only_encodings", "decode_encode", "decodeFields_iff", "validate_prefix_stable", "validate_prefix_reflects"]
 TABLES = ["typeTab_table", "limits_table"]
 
 
